@@ -131,3 +131,105 @@ Proof. vm_compute. discriminate. Qed.
 Theorem average_default_eq : forall a T F B,
   average_default a T F B = average a T F B averager_default_timeav averager_default_chanav averager_default_flagav.
 Proof. intros. apply average_api_eq. Qed.
+
+(* ------------------------------------------------------------------ laws of one bin *)
+(* a bin of one sample (factors 1 x 1): the sample comes back; a flagged one with weight 0 *)
+Lemma cq_eta : forall v : cq, (fst v, snd v) = v.
+Proof. intros [a b]. reflexivity. Qed.
+
+Lemma sample_eq : forall (v v' : cq) (w w' : Qc) (f f' : bool), v = v' -> w = w' -> f = f' -> (v, w, f) = (v', w', f').
+Proof. intros; subst; reflexivity. Qed.
+
+Theorem avg_single_unflagged : forall flagav v (w : Qc), w <> 0%Qc -> spec_bin flagav [(v, w, false)] = (v, w, false).
+Proof.
+  intros flagav [re im] w Hw. unfold spec_bin. cbn [unflagged filter s_flag snd negb map s_w fst qsum fold_right].
+  assert (E : (w + 0)%Qc = w) by ring. rewrite E. rewrite (Qc_is_zero_false _ Hw).
+  cbn [csum fold_right map s_vis fst snd cscale cadd cdivq cq0 existsb forallb orb andb].
+  destruct flagav; (apply sample_eq; [unfold cdivq, cadd, cscale, cq0; cbn [fst snd]; apply cq_eq; field; exact Hw | reflexivity | reflexivity]).
+Qed.
+
+Theorem avg_single_flagged : forall flagav v (w : Qc), spec_bin flagav [(v, w, true)] = (v, 0%Qc, true).
+Proof.
+  intros flagav [re im] w. unfold spec_bin. cbn [unflagged filter s_flag snd negb map s_w fst qsum fold_right].
+  rewrite (Qc_is_zero_true 0%Qc eq_refl).
+  cbn [List.length csum fold_right map s_vis fst snd cscale cadd cq0 existsb forallb orb andb].
+  assert (I1 : inv_count 1 = 1%Qc) by reflexivity. rewrite I1.
+  destruct flagav; (apply sample_eq; [unfold cadd, cscale, cq0; cbn [fst snd]; apply cq_eq; ring | reflexivity | reflexivity]).
+Qed.
+
+(* a bin is never flagged by AND without being flagged by OR *)
+Theorem avg_and_implies_or : forall l, l <> [] -> forallb s_flag l = true -> existsb s_flag l = true.
+Proof. intros [| s l] H F; [congruence |]. cbn in *. apply andb_prop in F. destruct F as [-> _]. reflexivity. Qed.
+
+(* WHAT MUST NOT MATTER: the visibility and weight of a flagged sample (as long as some unflagged weight is left) *)
+Inductive same_unflagged : list sample -> list sample -> Prop :=
+| su_nil : same_unflagged [] []
+| su_flagged : forall v w v' w' l l', same_unflagged l l' -> same_unflagged ((v, w, true) :: l) ((v', w', true) :: l')
+| su_kept : forall s l l', s_flag s = false -> same_unflagged l l' -> same_unflagged (s :: l) (s :: l').
+
+Lemma same_unflagged_facts : forall l l', same_unflagged l l' ->
+  unflagged l = unflagged l' /\ map s_flag l = map s_flag l'.
+Proof.
+  induction 1 as [| v w v' w' l l' _ [IH1 IH2] | s l l' Hs _ [IH1 IH2]].
+  - split; reflexivity.
+  - unfold unflagged in *. cbn. rewrite IH2. split; [exact IH1 | reflexivity].
+  - unfold unflagged in *. cbn. rewrite Hs. cbn. rewrite IH1, IH2. split; reflexivity.
+Qed.
+
+Lemma existsb_map_flag : forall l, existsb s_flag l = existsb (fun b => b) (map s_flag l).
+Proof. induction l as [| s l IH]; cbn; [reflexivity | now rewrite IH]. Qed.
+Lemma forallb_map_flag : forall l, forallb s_flag l = forallb (fun b => b) (map s_flag l).
+Proof. induction l as [| s l IH]; cbn; [reflexivity | now rewrite IH]. Qed.
+
+Theorem avg_flagged_samples_irrelevant : forall flagav l l', same_unflagged l l' ->
+  qsum (map s_w (unflagged l)) <> 0%Qc -> spec_bin flagav l' = spec_bin flagav l.
+Proof.
+  intros flagav l l' H W. destruct (same_unflagged_facts l l' H) as [U Fl]. unfold spec_bin.
+  rewrite <- U. rewrite (Qc_is_zero_false _ W).
+  rewrite (existsb_map_flag l'), (forallb_map_flag l'), <- Fl, <- existsb_map_flag, <- forallb_map_flag. reflexivity.
+Qed.
+
+(* scaling every weight by the same non-zero constant: same visibility, same flag, weight scaled *)
+Definition scale_w (c : Qc) (s : sample) : sample := (s_vis s, (c * s_w s)%Qc, s_flag s).
+
+Lemma unflagged_scale : forall c l, unflagged (map (scale_w c) l) = map (scale_w c) (unflagged l).
+Proof.
+  intros c l. unfold unflagged. induction l as [| s l IH]; [reflexivity |]. cbn [map filter].
+  replace (s_flag (scale_w c s)) with (s_flag s) by reflexivity. destruct (negb (s_flag s)); cbn [map]; now rewrite IH.
+Qed.
+
+Lemma qsum_scale : forall c l, qsum (map s_w (map (scale_w c) l)) = (c * qsum (map s_w l))%Qc.
+Proof.
+  intros c l. induction l as [| s l IH]; cbn [map qsum fold_right]; [ring |].
+  fold (qsum (map s_w (map (scale_w c) l))). fold (qsum (map s_w l)). rewrite IH.
+  replace (s_w (scale_w c s)) with (c * s_w s)%Qc by reflexivity. ring.
+Qed.
+
+Lemma csum_scale : forall c l,
+  csum (map (fun s => cscale (s_w s) (s_vis s)) (map (scale_w c) l)) =
+  cscale c (csum (map (fun s => cscale (s_w s) (s_vis s)) l)).
+Proof.
+  intros c l. induction l as [| s l IH]; cbn [map csum fold_right].
+  - unfold cscale, cq0. cbn [fst snd]. apply cq_eq; ring.
+  - fold (csum (map (fun s => cscale (s_w s) (s_vis s)) (map (scale_w c) l))).
+    fold (csum (map (fun s => cscale (s_w s) (s_vis s)) l)). rewrite IH.
+    unfold cscale, cadd, scale_w, s_w, s_vis. cbn [fst snd]. apply cq_eq; ring.
+Qed.
+
+Lemma map_vis_scale : forall c l, map s_vis (map (scale_w c) l) = map s_vis l.
+Proof. intros c l. rewrite map_map. reflexivity. Qed.
+Lemma map_flag_scale : forall c l, map s_flag (map (scale_w c) l) = map s_flag l.
+Proof. intros c l. rewrite map_map. reflexivity. Qed.
+
+Theorem avg_weight_scaling : forall flagav (c : Qc) l, c <> 0%Qc ->
+  spec_bin flagav (map (scale_w c) l) = scale_w c (spec_bin flagav l).
+Proof.
+  intros flagav c l Hc. unfold spec_bin. rewrite unflagged_scale, qsum_scale, csum_scale, map_vis_scale, map_length.
+  rewrite (existsb_map_flag (map _ l)), (forallb_map_flag (map _ l)), map_flag_scale, <- existsb_map_flag, <- forallb_map_flag.
+  set (W := qsum (map s_w (unflagged l))). unfold scale_w, s_vis, s_w, s_flag. cbn [fst snd].
+  destruct (Qc_eq_dec W 0) as [E | N].
+  - rewrite E. replace (c * 0)%Qc with 0%Qc by ring. rewrite (Qc_is_zero_true 0%Qc eq_refl). reflexivity.
+  - assert (N' : (c * W)%Qc <> 0%Qc) by (intro M; apply Qcmult_integral in M; tauto).
+    rewrite (Qc_is_zero_false _ N), (Qc_is_zero_false _ N'). f_equal. f_equal.
+    unfold cdivq, cscale. cbn [fst snd]. apply cq_eq; field; split; assumption.
+Qed.
